@@ -30,6 +30,23 @@ def same_path(a, b, tol=1e-12):
     return len(a) == len(b)
 
 
+def agent_probes():
+    from fractions import Fraction as F
+    import gen_models as G
+    X = G.X
+    m3 = {"n_periods": 2, "states": [["s", {"d": 3}]], "choices": [["c", {"d": 3}]],
+          "functions": [{"name": "utility", "args": ["s", "c"], "body": ["+", ["+", X.v("c"), X.v("s")], X.c(F(1, 2))], "stochastic": False},
+                        {"name": "next_s", "args": ["s"], "body": X.v("s"), "stochastic": False},
+                        {"name": "ok_filter", "args": ["s", "c"], "body": ["<=", X.v("c"), X.v("s")], "stochastic": False}]}
+    p3 = {"beta": F(1), "fpar": {"utility": {}, "next_s": {}, "ok_filter": {}}, "shocks": {}}
+    out = []
+    for init in ([0, 1, 2], [2, 0, 1, 1], [0, 2]):
+        c = {"fn": "simulate", "model": G.model_json(m3, q), "params": G.params_json(p3, q), "py": G.render_python(m3),
+             "_mspec": m3, "_params": p3, "_force": ["probe:unequal_segments_divisible_total"]}
+        out.append((c, [["s", [q(F(x)) for x in init]]]))
+    return out
+
+
 def fam_agents(rng, n):
     fam = Family("agents_metamorphic",
                  "random whole models (deterministic ones for whole paths, stochastic ones for period 0) simulated "
@@ -40,29 +57,41 @@ def fam_agents(rng, n):
              {"period_filter"}, {"mixed_discrete_choices", "filter", "dead_state"}]
     cases = e2e.gen_cases(rng, n, fn="simulate", features=feats, allow_state_exclusion=False)
     jobs, wcs = [], []
-    for ci, c in enumerate(cases):
-        m = c["_mspec"]
-        na = rng.randint(3, 7)
-        init = e2e.gen_initial_states(rng, m, na, on_grid=rng.random() < 0.3)
-        base = e2e.wire(c)
-        base["seed"] = rng.randint(0, 999)
 
+    def add_variants(ci, base, init, variants):
         def variant(order):
             w = dict(base)
             w["initial_states"] = [[s, [vals[k] for k in order]] for s, vals in init]
             return w
-        perm = list(range(na))
-        rng.shuffle(perm)
-        subset = sorted(rng.sample(range(na), rng.randint(1, na - 1)))
-        dup = list(range(na)) + [rng.randrange(na) for _ in range(2)]
-        single = [rng.randrange(na)]
-        variants = [("base", list(range(na))), ("permuted", perm), ("subset", subset), ("duplicated", dup), ("single", single)]
         for kind, order in variants:
             w = variant(order)
             if kind == "permuted":
                 w["initial_states"] = list(reversed(w["initial_states"]))      # key order of the mapping
             wcs.append(w)
             jobs.append((ci, kind, order))
+
+    for ci, c in enumerate(cases):
+        m = c["_mspec"]
+        na = rng.randint(3, 7)
+        init = e2e.gen_initial_states(rng, m, na, on_grid=rng.random() < 0.3)
+        base = e2e.wire(c)
+        base["seed"] = rng.randint(0, 999)
+        perm = list(range(na))
+        rng.shuffle(perm)
+        subset = sorted(rng.sample(range(na), rng.randint(1, na - 1)))
+        dup = list(range(na)) + [rng.randrange(na) for _ in range(2)]
+        single = [rng.randrange(na)]
+        add_variants(ci, base, init, [("base", list(range(na))), ("permuted", perm), ("subset", subset), ("duplicated", dup), ("single", single)])
+    # fixed probes (no random draws): a restricted choice with three labels whose admissible set grows with the state, batches in
+    # which the agents have DIFFERENT numbers of admissible combinations whose total is a multiple of the number of agents
+    for pc, init in agent_probes():
+        ci = len(cases)
+        cases.append(pc)
+        base = e2e.wire(pc)
+        base["seed"] = 0
+        na = len(init[0][1])
+        add_variants(ci, base, init, [("base", list(range(na))), ("permuted", list(reversed(range(na)))), ("subset", [0, 1]),
+                                      ("subset", list(range(1, na))), ("single", [0]), ("single", [na - 1])])
     ires = run_impl(wcs)
     base_paths = {}
     for (ci, kind, order), w, i in zip(jobs, wcs, ires):
